@@ -180,7 +180,15 @@ class DataView(DataSet):
             raise IndexError(
                 "an index can only have a single ellipsis ('...')"
             )
-        elif user_slices.count(Ellipsis) == 1:
+
+        nidx = len(user_slices) - user_slices.count(Ellipsis)
+        if nidx > len(self.data_extent):
+            raise IndexError(
+                "too many indices for DataView: DataView is {}-dimensional, "
+                "but {} were indexed".format(len(self.data_extent), nidx)
+            )
+
+        if user_slices.count(Ellipsis) == 1:
             # expand slices at Ellipsis index
             expidx = user_slices.index(Ellipsis)
             npad = len(self.data_extent) - len(user_slices) + 1
